@@ -5,8 +5,8 @@ FAMILIES = ['kill', 'fatal', 'latekill', 'resize', 'idlefatal', 'cancelfail']
 PER_FAMILY = (300, 6000)
 
 
-PROOF = S.pool_proof('C02', ['C02_loud_before_any_broken_future', 'C02_broken_pool_refuses', 'C02_death_fails_everything_loudly', 'C02_manager_gone_means_all_settled', 'C02_unguarded_resize_refuted', 'C02_structure', 'C02_worker_never_leaves_silently', 'C02_error_names_every_exit_code', 'C02_exit_code_names', 'C02_exit_codes_structure', 'C02_every_registered_worker_is_watched', 'C02_failing_the_table_never_kills_the_manager'],
-                    "detection itself (the sentinel of a dead worker becomes ready) is the OS's; the identity of the failed futures is Model/TokenFlow.v's; signal names are the OS's table (a parameter of the theorems)", extra_gen=['Worker', 'Exit', 'Resize'])
+PROOF = S.pool_proof('C02', ['C02_loud_before_any_broken_future', 'C02_broken_pool_refuses', 'C02_death_fails_everything_loudly', 'C02_manager_gone_means_all_settled', 'C02_unguarded_resize_refuted', 'C02_structure', 'C02_worker_never_leaves_silently', 'C02_error_names_every_exit_code', 'C02_exit_code_names', 'C02_exit_codes_structure', 'C02_every_registered_worker_is_watched', 'C02_failing_the_table_never_kills_the_manager', 'C02_round_decision', 'C02_death_is_outprioritised_only_by_messages', 'C02_wakeup_pipe_structure'],
+                    "detection itself (the sentinel of a dead worker becomes ready) is the OS's; the identity of the failed futures is Model/TokenFlow.v's; signal names are the OS's table (a parameter of the theorems)", extra_gen=['Worker', 'Exit', 'Resize', 'Detect'])
 
 
 def exit_differential(ctx, n):
@@ -42,6 +42,88 @@ def exit_differential(ctx, n):
             "error": None if ok else out[-300:], "against_the_property": spec_bad[:5], "n_against_the_property": len(spec_bad), "sample": {"codes": cases[0], "message_part": real[0]}}
 
 
+def round_differential(ctx):
+    """one round of the REAL wait_result_broken_or_wakeup for each of the 12 behaviours of its environment (which pipes wait() reports
+    ready, what recv() yields; a dead worker's sentinel always ready) against the generated program evaluated in Coq and against the
+    decision table of C02_round_decision"""
+    import os, sys, types
+    import vlib
+    if sys.path[0] != vlib.REPO:
+        sys.path.insert(0, vlib.REPO)
+    import loky.process_executor as pe
+
+    class Reader:
+        def __init__(self, out):
+            self.out, self.recvs = out, 0
+
+        def recv(self):
+            self.recvs += 1
+            if self.out == "RItem":
+                return pe._ResultItem(7, result=1)
+            if self.out == "RTraceback":
+                return pe._RemoteTraceback("tb")
+            raise EOFError("undecodable")
+
+    class Wake:
+        def __init__(self):
+            self._reader, self.cleared = object(), 0
+
+        def clear(self):
+            self.cleared += 1
+
+    class Proc:
+        sentinel, exitcode, name = object(), -9, "LokyProcess-1"
+    rows, real = [], []
+    saved_wait, saved_codes = pe.wait, pe.get_exitcodes_terminated_worker
+    try:
+        for rr in (True, False):
+            for wr in (True, False):
+                for rc in ("RItem", "RTraceback", "RRaises"):
+                    rd, wk, proc = Reader(rc), Wake(), Proc()
+                    me = types.SimpleNamespace(result_queue=types.SimpleNamespace(_reader=rd), thread_wakeup=wk, processes={1: proc})
+                    seen = {}
+
+                    def fake_wait(objs, timeout=None, rd=rd, wk=wk, proc=proc, rr=rr, wr=wr, seen=seen):
+                        seen["objs"], seen["timeout"] = list(objs), timeout
+                        return ([rd] if rr else []) + ([wk._reader] if wr else []) + [proc.sentinel]
+                    pe.wait = fake_wait
+                    pe.get_exitcodes_terminated_worker = lambda procs: "{SIGKILL(-9)}"
+                    item, broken, bpe = pe._ExecutorManagerThread.wait_result_broken_or_wakeup(me)
+                    kind = None if bpe is None else ("BTerminatedWorker" if isinstance(bpe, pe.TerminatedWorkerError) else
+                                                     "BTaskUnserialize" if "task has failed to un-serialize" in str(bpe) else
+                                                     "BResultUnserialize" if "result has failed to un-serialize" in str(bpe) else "?")
+                    ik = "INone" if item is None else "ITrace" if isinstance(item, pe._RemoteTraceback) else "IItem"
+                    waits_on_all = set(map(id, seen["objs"])) == {id(rd), id(wk._reader), id(proc.sentinel)} and seen["timeout"] is None
+                    real.append({"res_ready": rr, "wake_ready": wr, "recv": rc, "broken": bool(broken), "bpe": kind, "item": ik,
+                                 "recvs": rd.recvs, "cleared": wk.cleared, "waits_on_all_without_timeout": waits_on_all})
+                    rows.append((rr, wr, rc))
+    finally:
+        pe.wait, pe.get_exitcodes_terminated_worker = saved_wait, saved_codes
+    # the property's own table
+    def want(rr, wr, rc):
+        if rr:
+            return (rc != "RItem", {"RItem": None, "RTraceback": "BTaskUnserialize", "RRaises": "BResultUnserialize"}[rc],
+                    {"RItem": "IItem", "RTraceback": "ITrace", "RRaises": "INone"}[rc], 1)
+        return (not wr, None if wr else "BTerminatedWorker", "INone", 0)
+    against_table = [r for r, k in zip(real, rows) if (r["broken"], r["bpe"], r["item"], r["recvs"]) != want(*k)
+                     or r["cleared"] != 1 or not r["waits_on_all_without_timeout"]]
+    # the generated program, evaluated inside Coq: code = broken*1000 + bpe*100 + item*10 + recvs
+    b = lambda x: "true" if x else "false"  # noqa: E731
+    txt = ("From Coq Require Import List Bool.\nFrom LokyV Require Import Lib.DetectLib Gen.Detect Model.Detect.\nImport ListNotations.\n"
+           "Definition code (e : denv) : nat := let o := outcome e in\n"
+           "  (match d_broken o with Some true => 1000 | _ => 0 end) + (match d_bpe o with Some (Some BTaskUnserialize) => 100 | Some (Some BResultUnserialize) => 200 "
+           "| Some (Some BTerminatedWorker) => 300 | _ => 0 end) + (match d_item o with IItem => 10 | ITrace => 20 | _ => 0 end) + d_recvs o.\n"
+           "Eval vm_compute in map code [" + "; ".join(f"mkdenv {b(rr)} {b(wr)} {rc}" for rr, wr, rc in rows) + "].\n")
+    ok, out = vlib.coq_eval(f"c02_round_{os.getpid()}", txt)
+    codes = [int(x) for x in (out.split("=", 1)[1].split(":")[0] if ok and "=" in out else "").replace("[", " ").replace("]", " ").replace(";", " ").split() if x.isdigit()]
+    def code(r):
+        return (1000 if r["broken"] else 0) + {None: 0, "BTaskUnserialize": 100, "BResultUnserialize": 200, "BTerminatedWorker": 300}.get(r["bpe"], 900) \
+            + {"IItem": 10, "ITrace": 20, "INone": 0}[r["item"]] + r["recvs"]
+    against_model = [dict(r, model_code=c) for r, c in zip(real, codes) if code(r) != c] if len(codes) == len(real) else None
+    return {"ok": ok and against_model is not None, "rounds": len(real), "against_the_property": against_table, "against_the_model": against_model,
+            "error": None if ok else out[-300:], "sample": real[0]}
+
+
 def run(ctx):
     from checks import realkill
     import vlib
@@ -57,6 +139,16 @@ def run(ctx):
         rp = vlib.write_replay(ctx, "exitcodes", {"kind": "the generated exit-code formatting and the real _format_exitcodes differ (or the comparison did not run)", "detail": ed})
         ctx.violations.append((f"exit-code formatting: model and implementation differ on {ed['n_mismatches']} of {ed['cases']} lists"
                                if ed["n_mismatches"] else "exit-code formatting comparison did not run: " + str(ed["error"])[:100], rp, not ed["n_mismatches"]))
+    rd = round_differential(ctx)
+    extra["wait_decision_differential"] = rd
+    if rd["against_the_property"]:
+        rp = vlib.write_replay(ctx, "round", {"kind": "one round of the real wait_result_broken_or_wakeup decides otherwise than the property says", "detail": rd})
+        ctx.violations.append((f"manager's wait decides wrongly in {len(rd['against_the_property'])} of {rd['rounds']} environments: "
+                               + str(rd["against_the_property"][0])[:160], rp, False))
+    elif not rd["ok"] or rd["against_the_model"]:
+        rp = vlib.write_replay(ctx, "round", {"kind": "the generated wait program and the real wait_result_broken_or_wakeup differ (or the comparison did not run)", "detail": rd})
+        ctx.violations.append(("wait decision: model and implementation differ" if rd["against_the_model"] else "wait decision comparison did not run: " + str(rd["error"])[:100],
+                               rp, not rd["against_the_model"]))
     return S.sim_check(ctx, FAMILIES, FAMILIES, PER_FAMILY, S.SIM_ASSUME, proof=PROOF, extra_cov=extra)
 
 
